@@ -13,6 +13,7 @@ import os
 
 from . import common
 from . import c13_ram as RAM
+from . import c13_ramn as N
 from . import c13_req as REQ
 from . import c13_wsgi as WSGI
 from . import c13_file as FILE
@@ -89,151 +90,129 @@ def _setup_cherrypy():
 
 
 # ------------------------------------------------------------------------------------------------
-# (a) RAM interleavings
+# (a) lock-table backends: interleavings of several ids / threads / sweepers, handler scripts
 # ------------------------------------------------------------------------------------------------
 INITS = [
     ('live', [5, 100], False), ('live+lock', [5, 100], True),
     ('expired', [5, 0], False), ('expired+lock', [5, 0], True),
     ('absent', None, False),
 ]
+F21_SIG = 'C13-F21:ram_second_sweeper_acquires_discarded_lock_then_pops'
 
 
-def ram_line(variant, case, toks):
-    c = case.get('cache')
-    return 'ram %s %s %d %d %s' % (variant, 'N' if c is None else '%d:%d' % tuple(c),
-                                   1 if case.get('tbl') else 0, case['n'], ','.join(toks) or '-')
+def from_old_ram(case):
+    """corpus / finding witnesses recorded as {'kind': 'ram', n, cache, tbl, sched}"""
+    return {'kind': 'ramn', 'ids': [[case.get('cache'), bool(case.get('tbl'))]],
+            'thrs': [[0, 'm']] * case['n'], 'nsw': 1, 'sched': [N.norm_tok(t) for t in case['sched']],
+            'init': case.get('init', 'corpus')}
 
 
-def ram_oracle(case, toks, obs):
+def ramn_oracle(case, toks, obs):
     """The property statement evaluated on what the real threads did.  [(what, signature)]"""
     bad = []
+    be = case.get('backend', 'ram')
 
     def sig(kind):
-        return F20_SIG if obs['orphan_acquire'] else 'ram:' + kind
+        if obs['sweeper_orphan_acquire'] and case.get('nsw', 1) >= 2:
+            return F21_SIG          # a second sweep acquired a lock object the first one had discarded
+        if obs['orphan_acquire'] and be == 'ram':
+            return F20_SIG
+        return '%s:%s' % (be, kind)
     if obs['max_occ'] > 1:
-        bad.append(('%d request threads were between acquire_lock and release_lock at the same time'
-                    % obs['max_occ'], sig('double_occupancy')))
+        bad.append(('%d request threads were between acquire_lock and release_lock of the same session id at '
+                    'the same time' % obs['max_occ'], sig('double_occupancy')))
     if obs['lost']:
         bad.append(('a read-modify-write of the session counter was overtaken by another write (lost update)',
                     sig('lost_update')))
     for name, exc in sorted(obs['errors'].items()):
-        if name == 'S':
-            bad.append(('clean_up() raised %s while releasing a lock object it had popped' % exc,
-                        sig('sweeper_release_error')))
+        if name.startswith('S'):
+            bad.append(('clean_up() raised %s' % exc, sig('sweeper_error')))
         else:
-            bad.append(('request thread %s: releasing the session lock raised %s' % (name, exc),
+            bad.append(('request thread %s: the locked session request raised %s' % (name, exc),
                         sig('release_error')))
     finished = [r for r, v in obs['results'].items() if r not in obs['unfinished']]
-    leaked = [h for h in obs['held_by'] if h in finished]
+    leaked = [h for h in obs['held_by'] if h in finished or h.startswith('S')]
     if leaked and not obs['errors']:
-        bad.append(('lock object still owned by finished request thread(s) %s' % leaked, sig('lock_leak')))
+        bad.append(('lock object still owned by %s after everybody ended' % leaked, sig('lock_leak')))
     if obs['blocked']:
         bad.append(('request thread(s) %s blocked forever on a session lock nobody will release' % obs['blocked'],
                     sig('blocked_forever')))
-    # no expiry involved: the final counter is exactly the number of increments
-    c = case.get('cache')
-    if c is not None and c[1] >= 50 and not any(t.startswith('K') for t in toks) \
+    for f in obs['frame'][:2]:
+        bad.append(('independence of session ids violated: ' + f, sig('frame')))
+    for name, old, new, old_owner, new_owner in obs['regen']:
+        if old_owner == name:
+            bad.append(('%s: after regenerate() the lock of the OLD id %s is still held by the request'
+                        % (name, old), sig('regen_old_lock_held')))
+        if new_owner != name:
+            bad.append(('%s: after regenerate() inside the locked region the lock of the NEW id %s is held by %s'
+                        % (name, new, new_owner), sig('regen_new_lock_not_held')))
+    # nothing can expire, only increments: the final counter of every id is init + number of increments
+    if all(set(sc) <= {'m'} for _, sc in case['thrs']) and not any(t.startswith('K') for t in toks) \
             and not obs['unfinished'] and not obs['errors']:
-        want = c[0] + obs['saves']
-        if obs['counter'] != want:
-            bad.append(('final counter %r, expected %d (= %d + %d increments)'
-                        % (obs['counter'], want, c[0], obs['saves']), sig('counter')))
+        for x, (c, tbl) in enumerate(case['ids']):
+            if c is not None and c[1] >= 50:
+                want = c[0] + obs['writes'].get(x, 0)
+                if obs['counters'].get(x) != want:
+                    bad.append(('final counter of session %d is %r, expected %d (= %d + %d increments)'
+                                % (x, obs['counters'].get(x), want, c[0], obs['writes'].get(x, 0)), sig('counter')))
     return bad
 
 
-def gen_ram_random(rng):
+SCRIPTS = ['m', 'm', 'm', 'mm', 'mgm', 'gm', 'mg', 'dm', 'md', 'cm', 'mc', 'mdgm', '']
+
+
+def gen_ramn_random(rng, backend='ram'):
+    nid = rng.choice([1, 1, 2, 2, 3])
+    ids = [list(rng.choice(INITS[:4] * 3 + INITS[4:])[1:]) for _ in range(nid)]
+    if all(c is None for c, _ in ids):
+        ids[0] = [[5, 100], False]
     n = rng.choice([2, 2, 3])
-    name, cache, tbl = rng.choice(INITS[:4] * 3 + INITS[4:])
+    thrs = [[rng.randrange(nid), rng.choice(SCRIPTS)] for _ in range(n)]
+    thrs[1][0] = thrs[0][0]                         # at least two requests contend for one id
+    nsw = 0 if backend == 'memcached' else rng.choice([1, 1, 1, 2])
     actors = [str(i) for i in range(n)]
+    sweepers = ['S%d' % k for k in range(nsw)]
     toks = []
-    L = rng.randint(8, 40)
+    L = rng.randint(8, 44)
     while len(toks) < L:
         r = rng.random()
-        if r < 0.62:
+        if r < 0.6 or not sweepers:
             a = rng.choice(actors)
         elif r < 0.94:
-            a = 'S'
+            a = rng.choice(sweepers)
         else:
-            a = rng.choice(['K1', 'K2', 'K3', 'K5'])
-            toks.append(a)
+            toks.append(rng.choice(['K1', 'K2', 'K3', 'K5']))
             continue
         toks += [a] * rng.choice([1, 1, 1, 2, 2, 3, 4, 7])
-    return {'kind': 'ram', 'n': n, 'cache': cache, 'tbl': tbl, 'sched': toks[:L], 'init': name}
+    return {'kind': 'ramn', 'ids': ids, 'thrs': thrs, 'nsw': nsw, 'sched': toks[:L], 'backend': backend,
+            'init': 'random'}
 
 
-def gen_ram_window(rng):
-    """Targeted at the window between `setdefault` and `acquire` (and between lookup and release)."""
+def gen_ramn_window(rng):
+    """Targeted at the windows between looking a lock object up and acquiring it (requests AND
+    sweepers): everybody passes __init__, one request does its setdefault, then sweeper bursts."""
     n = rng.choice([2, 3])
     name, cache, tbl = rng.choice(INITS[:4])
+    nsw = rng.choice([1, 1, 2])
     order = [str(i) for i in range(n)]
     rng.shuffle(order)
-    toks = list(order)                                  # everybody passes Session.__init__
-    first = order[0]
-    toks += [first] * rng.choice([1, 1, 2])             # setdefault (maybe acquire)
+    toks = list(order)
+    toks += [order[0]] * rng.choice([1, 1, 2])
     if rng.random() < 0.3:
         toks.append(rng.choice(['K1', 'K3']))
-    toks += ['S'] * rng.choice([4, 5, 6, 7, 8, 9, 12])
+    for k in range(nsw):
+        toks += ['S%d' % k] * rng.choice([3, 4, 5, 6, 7, 8, 9, 12])
     rest = []
     for a in order:
         rest += [a] * rng.randint(2, 9)
-    rest += ['S'] * rng.randint(0, 8)
+    for k in range(nsw):
+        rest += ['S%d' % k] * rng.randint(0, 8)
     rng.shuffle(rest)
-    return {'kind': 'ram', 'n': n, 'cache': cache, 'tbl': tbl, 'sched': toks + rest, 'init': name}
+    return {'kind': 'ramn', 'ids': [[cache, tbl]], 'thrs': [[0, rng.choice(['m', 'm', 'mgm'])] for _ in range(n)],
+            'nsw': nsw, 'sched': toks + rest, 'init': name}
 
 
-def run_policy(n, cache, tbl, order, preempt, sweeps=1, factory=None, prefix=()):
-    """Adaptive schedule: run actors in `order`, each until it finishes / blocks (a free switch),
-    except that at global step index k in `preempt` control moves to preempt[k] (a pre-emption).
-    The sweeper counts as finished after `sweeps` complete sweeps.  Returns like run_case."""
-    run = factory() if factory is not None else RAM.RamRun(n, cache, tbl)
-    try:
-        snaps, toks = [], []
-        for t in prefix:
-            run.step(t)
-            toks.append(t)
-            snaps.append(run.snapshot())
-        sweeps_done = [0]
-        started_sweep = [False]
-
-        def finished(a):
-            if a == 'S':
-                return sweeps_done[0] >= sweeps
-            return run.sched.done('r' + a)
-
-        def runnable(a):
-            if finished(a):
-                return False
-            return run.sched.enabled('S' if a == 'S' else 'r' + a)
-
-        cur = None
-        k = 0
-        while k < 200:
-            if k in preempt and runnable(preempt[k]):
-                cur = preempt[k]
-            if cur is None or not runnable(cur):
-                cands = [a for a in order if runnable(a)]
-                if not cands:
-                    break
-                cur = cands[0]
-            run.step(cur)
-            toks.append(cur)
-            snaps.append(run.snapshot())
-            if cur == 'S':
-                sw = run.sched.threads['S']
-                if sw.status == 'done':
-                    sweeps_done[0] = sweeps
-                elif sw.pending[0] == 'sweep.start':
-                    sweeps_done[0] += 1
-            k += 1
-        toks += run.finish(snaps)
-        obs = run.observations()
-        return snaps, toks, obs
-    finally:
-        run.close()
-
-
-def enum_policies(n, max_preempt, horizon):
-    actors = [str(i) for i in range(n)] + ['S']
+def enum_policies(actors, max_preempt, horizon):
     for order in itertools.permutations(actors):
         yield order, {}
         if max_preempt >= 1:
@@ -249,79 +228,94 @@ def enum_policies(n, max_preempt, horizon):
                                 yield order, {k1: a1, k2: a2}
 
 
-def check_ram(ctx, items, variant, compare=True):
-    """items: (case, snaps, toks, obs) already executed on the real code."""
-    lines = [ram_line(variant, case, toks) for case, snaps, toks, obs in items]
+def check_ramn(ctx, items, variants, compare=True):
+    """items: (case, o0, trace, final, obs) already executed on the real code."""
+    lines = []
+    for case, o0, trace, final, obs in items:
+        rv = 'recheck' if case.get('backend', 'ram') == 'ram' else 'orig'
+        lines.append(N.model_line(case, o0, trace, final, rv, variants['sv']))
     model = ctx.model(lines) if compare else None
-    for idx, (case, snaps, toks, obs) in enumerate(items):
+    for idx, (case, o0, trace, final, obs) in enumerate(items):
+        toks = [t for t, _, _ in trace]
         full = dict(case, sched=toks)
         full.pop('init', None)
-        acted = set()
-        prev = None
-        for t, s in zip(toks, snaps):
-            if s != prev and not t.startswith('K'):
+        acted, prev = set(), o0
+        for t, o, _ in trace:
+            if o != prev and not t.startswith('K'):
                 acted.add(t)
-            prev = s
-        ctx.case(full, nontrivial=len(acted) >= 2, key=lines[idx])
-        ctx.count('ram:n=%d' % case['n'])
-        ctx.count('ram:init=' + case.get('init', '?'))
+            prev = o
+        be = case.get('backend', 'ram')
+        ctx.case(full, nontrivial=len(acted) >= 2, key=json.dumps(full, sort_keys=True))
+        ctx.count('%s:threads=%d' % (be, len(case['thrs'])))
+        ctx.count('%s:ids=%d' % (be, len(case['ids'])))
+        ctx.count('%s:sweepers=%d' % (be, case.get('nsw', 1)))
+        ctx.count('%s:init=%s' % (be, case.get('init', '?')))
+        for _, sc in case['thrs']:
+            ctx.count('%s:script=%s' % (be, sc or '-'))
         for r, v in obs['results'].items():
-            ctx.count('ram:thread=' + (v or ('crashed' if r in obs['errors'] else 'blocked')))
-        ctx.count('ram:max_occ=%d' % obs['max_occ'])
-        if any(';W=rel' in s for s in snaps):
-            ctx.count('ram:sweeper_popped')
+            ctx.count('%s:thread=%s' % (be, v or ('crashed' if r in obs['errors'] else 'blocked')))
+        ctx.count('%s:max_occ=%d' % (be, obs['max_occ']))
+        if obs['regen']:
+            ctx.count('%s:regenerated_inside_lock' % be)
         if obs['orphan_acquire']:
-            ctx.count('ram:orphan_lock_acquired')
-        for what, sig in ram_oracle(case, toks, obs):
+            ctx.count('%s:orphan_lock_acquired' % be)
+        if obs['foreign_pop']:
+            ctx.count('%s:sweeper_popped_foreign_lock' % be)
+        for what, sig in ramn_oracle(case, toks, obs):
             ctx.oracle_fail(full, what, sig)
         if model is not None:
             ctx.compared()
-            m = model[idx].split('|') if model[idx] != '-' else []
-            if m != snaps:
-                k = next((i for i, (a, b) in enumerate(zip(m, snaps)) if a != b), min(len(m), len(snaps)))
-                ctx.disagree(full, {'step': k, 'snapshot': snaps[k] if k < len(snaps) else None},
-                             {'step': k, 'snapshot': m[k] if k < len(m) else None},
-                             'RamSession per-step snapshot differs at step %d (token %s)'
-                             % (k, toks[k] if k < len(toks) else '?'))
+            m = model[idx]
+            ctx.count('admit:' + ('tight' if m.endswith('tight') else 'loose' if m.startswith('ok') else 'rejected'))
+            if not m.startswith('ok'):
+                parts = m.split(' ')
+                k = int(parts[1]) if parts[1].isdigit() else None
+                seen = N.nats(trace[k][1]) if k is not None and k < len(trace) else N.nats(final)
+                ctx.disagree(full, {'turn': parts[1], 'actor': parts[2], 'observation': seen},
+                             {'turn': parts[1], 'model_could_show': parts[3][:600] if len(parts) > 3 else ''},
+                             'the model does not admit the observed sequence of shared states (%s backend): '
+                             'no model run makes actor %s change the tables / lock objects that way at turn %s'
+                             % (be, parts[2], parts[1]))
 
 
-def run_ram_case(case):
-    snaps, toks, obs = RAM.run_case(case)
-    return case, snaps, toks, obs
+def run_ramn_case(case):
+    o0, trace, final, obs = N.run_case(case)
+    return case, o0, trace, final, obs
 
 
-def ram_stream(ctx, variant, n_random, n_window, preempt_bound, compare=True):
+def _enum_chunk(args):
+    case, actors, order, bound, horizon, sweeps = args
     items = []
-    for _ in range(n_random):
-        items.append(run_ram_case(gen_ram_random(ctx.rng)))
-    for _ in range(n_window):
-        items.append(run_ram_case(gen_ram_window(ctx.rng)))
-    check_ram(ctx, items, variant, compare)
-    # systematic: all schedules with <= preempt_bound pre-emptions (2 request threads + sweeper)
-    chunks = [(name, cache, tbl, order, preempt_bound)
-              for name, cache, tbl in INITS[:4]
-              for order in itertools.permutations(['0', '1', 'S'])]
+    for o, pre in enum_policies(actors, bound, horizon):
+        if o != order:
+            continue
+        o0, trace, final, obs = N.run_policy(case, list(order), pre, sweeps=sweeps)
+        items.append((case, o0, trace, final, obs))
+    return items
+
+
+def ramn_stream(ctx, variants, n_random, n_window, preempt_bound, compare=True):
+    items = [run_ramn_case(gen_ramn_random(ctx.rng)) for _ in range(n_random)]
+    items += [run_ramn_case(gen_ramn_window(ctx.rng)) for _ in range(n_window)]
+    items += [run_ramn_case(gen_ramn_random(ctx.rng, 'memcached')) for _ in range(max(20, n_random // 5))] \
+        if variants.get('memcached') else []
+    check_ramn(ctx, items, variants, compare)
+    # systematic: all schedules with <= preempt_bound pre-emptions
+    chunks = []
+    for name, cache, tbl in INITS[:4]:                   # one id, two requests, one sweeper
+        case = {'kind': 'ramn', 'ids': [[cache, tbl]], 'thrs': [[0, 'm'], [0, 'm']], 'nsw': 1, 'init': name}
+        for order in itertools.permutations(['0', '1', 'S0']):
+            chunks.append((case, ['0', '1', 'S0'], order, preempt_bound, 26, 1))
     if ctx.quick():
         results = [_enum_chunk(c) for c in chunks]
     else:
         results = common.parallel_map(_enum_chunk, chunks)
     count = 0
-    for items in results:
-        count += len(items)
-        check_ram(ctx, items, variant, compare)
+    for its in results:
+        count += len(its)
+        check_ramn(ctx, its, variants, compare)
     ctx.extra['ram_preemption_bounded_schedules'] = ctx.extra.get('ram_preemption_bounded_schedules', 0) + count
     ctx.extra['ram_preemption_bound'] = preempt_bound
-
-
-def _enum_chunk(args):
-    name, cache, tbl, order, bound = args
-    items = []
-    for o, pre in enum_policies(2, bound, 26):
-        if o != order:
-            continue
-        snaps, toks, obs = run_policy(2, cache, tbl, order, pre)
-        items.append(({'kind': 'ram', 'n': 2, 'cache': cache, 'tbl': tbl, 'init': name}, snaps, toks, obs))
-    return items
 
 
 # ------------------------------------------------------------------------------------------------
@@ -481,6 +475,9 @@ def fsched_oracle(case, toks, obs):
     for name, exc in sorted(obs['errors'].items()):
         who = 'clean_up()' if name == 'S' else 'request thread %s' % name
         bad.append(('%s raised %s' % (who, exc), 'fsched:raised:%s' % ('sweeper' if name == 'S' else 'request')))
+    if obs['timeout_leak']:
+        bad.append(('acquire_lock of %s raised LockTimeout, yet the request holds the file lock / Session.locked is '
+                    'set afterwards' % obs['timeout_leak'], 'fsched:lock_held_after_timeout'))
     if obs['blocked']:
         bad.append(('request(s) %s blocked forever on the session file lock (held by %s)'
                     % (obs['blocked'], obs['held_by']), 'fsched:blocked_forever'))
@@ -497,47 +494,53 @@ def fsched_oracle(case, toks, obs):
 
 
 def check_fsched(ctx, items, compare=True):
-    lines = [FS.model_line(case, toks) for case, snaps, toks, obs in items]
+    """items: (case, o0, trace, final, obs) already executed on the real code."""
+    lines = [FS.model_line(case, o0, trace, final) for case, o0, trace, final, obs in items]
     model = ctx.model(lines) if compare else None
-    for idx, (case, snaps, toks, obs) in enumerate(items):
+    for idx, (case, o0, trace, final, obs) in enumerate(items):
+        toks = [t for t, _, _ in trace]
         full = dict(case, sched=toks)
         full.pop('init', None)
-        acted, prev = set(), None
-        for t, sn in zip(toks, snaps):
-            if sn != prev and not t.startswith('K'):
+        acted, prev = set(), o0
+        for t, o, _ in trace:
+            if o != prev and t[0] not in 'KXP':
                 acted.add(t)
-            prev = sn
-        ctx.case(full, nontrivial=len(acted) >= 2, key=lines[idx])
+            prev = o
+        ctx.case(full, nontrivial=len(acted) >= 2, key=json.dumps(full, sort_keys=True))
         ctx.count('fsched:n=%d' % case['n'])
         ctx.count('fsched:init=' + case.get('init', '?'))
         for r, v in obs['results'].items():
             ctx.count('fsched:thread=' + (v or ('crashed' if r in obs['errors'] else 'blocked')))
-        if any(';W=rel' in a and ';C=A;' in a for a in snaps):
-            ctx.count('fsched:sweep_unlinked')
+        if any(t.startswith('X') for t in toks):
+            ctx.count('fsched:lock_timeout_expired')
+        if any(t.startswith('P') for t in toks):
+            ctx.count('fsched:unsuccessful_poll')
         for what, sig in fsched_oracle(case, toks, obs):
             ctx.oracle_fail(full, what, sig)
         if model is not None:
             ctx.compared()
-            m = model[idx].split('|') if model[idx] != '-' else []
-            if m != snaps:
-                k = next((i for i, (a, b) in enumerate(zip(m, snaps)) if a != b), min(len(m), len(snaps)))
-                ctx.disagree(full, {'step': k, 'snapshot': snaps[k] if k < len(snaps) else None},
-                             {'step': k, 'snapshot': m[k] if k < len(m) else None},
-                             'FileSession per-step snapshot (lock holder, file, program counters) differs at '
-                             'step %d (token %s)' % (k, toks[k] if k < len(toks) else '?'))
+            m = model[idx]
+            ctx.count('admit-file:' + ('tight' if m.endswith('tight') else 'loose' if m.startswith('ok') else 'rejected'))
+            if not m.startswith('ok'):
+                parts = m.split(' ')
+                k = int(parts[1]) if parts[1].isdigit() else None
+                seen = FS.nats(trace[k][1]) if k is not None and k < len(trace) else FS.nats(final)
+                ctx.disagree(full, {'turn': parts[1], 'actor': parts[2], 'observation': seen},
+                             {'turn': parts[1], 'model_could_show': parts[3][:600] if len(parts) > 3 else ''},
+                             'the model does not admit the observed sequence of (lock holder, file content, '
+                             'statuses) of the file backend: no model run makes actor %s change them that way at '
+                             'turn %s' % (parts[2], parts[1]))
 
 
 def _fenum_chunk(args):
     name, file0, prefix, order, bound = args
     items = []
-    for o, pre in enum_policies(2, bound, 22):
+    case = {'kind': 'fsched', 'n': 2, 'file': file0, 'init': name}
+    for o, pre in enum_policies(['0', '1', 'S'], bound, 22):
         if o != order:
             continue
-        # pre-emption indices count steps after the prefix
-        pre = {k + len(prefix): a for k, a in pre.items()}
-        snaps, toks, obs = run_policy(2, None, False, order, pre, factory=lambda: FS.FileRun(2, file0),
-                                      prefix=prefix)
-        items.append(({'kind': 'fsched', 'n': 2, 'file': file0, 'init': name}, snaps, toks, obs))
+        o0, trace, final, obs = FS.run_policy(case, list(order), pre, prefix=prefix)
+        items.append((case, o0, trace, final, obs))
     return items
 
 
@@ -545,8 +548,10 @@ def fsched_stream(ctx, n_random, preempt_bound, compare=True):
     items = []
     for _ in range(n_random):
         case = FS.gen_random(ctx.rng)
-        snaps, toks, obs = FS.run_case(case)
-        items.append((case, snaps, toks, obs))
+        items.append((case,) + FS.run_case(case))
+    for _ in range(max(30, n_random // 3)):
+        case = FS.gen_timeout(ctx.rng)
+        items.append((case,) + FS.run_case(case))
     check_fsched(ctx, items, compare)
     chunks = [(name, file0, prefix, order, preempt_bound)
               for name, file0, prefix in FS.INITS[:3]
@@ -592,7 +597,9 @@ def corpus_cases():
 def run_one(ctx, case, variant, compare=True):
     kind = case.get('kind', 'ram')
     if kind == 'ram':
-        check_ram(ctx, [run_ram_case(case)], variant, compare)
+        check_ramn(ctx, [run_ramn_case(from_old_ram(case))], variant, compare)
+    elif kind == 'ramn':
+        check_ramn(ctx, [run_ramn_case(case)], variant, compare)
     elif kind == 'req':
         check_req(ctx, [case], compare)
     elif kind == 'wsgi':
@@ -600,23 +607,38 @@ def run_one(ctx, case, variant, compare=True):
     elif kind == 'fileproc':
         check_file_processes(ctx, case['procs'], case['incs'], case['sweeps'])
     elif kind == 'fsched':
-        snaps, toks, obs = FS.run_case(case)
-        check_fsched(ctx, [(case, snaps, toks, obs)], compare)
+        check_fsched(ctx, [(case,) + FS.run_case(case)], compare)
     else:
         raise common.HarnessError('unknown case kind %r' % kind)
 
 
+F21_WITNESS = {'kind': 'ramn', 'ids': [[[5, 0], True]], 'thrs': [[0, 'm'], [0, 'm']], 'nsw': 2,
+               'sched': ['0', '1'] + ['S0'] * 3 + ['S1'] * 4 + ['S0'] * 3 + ['0'] * 3 + ['S1'] * 3 + ['1'] * 4}
+
+
+def detect_variants(ctx=None):
+    """Which clean_up protocol does the live code implement?  Decided by behaviour on the two-sweeper
+    witness: does a sweeper take a lock object out of the table that it does not own."""
+    o0, trace, final, obs = N.run_case(F21_WITNESS)
+    from cherrypy.lib import sessions
+    v = {'sv': 'orig' if (obs['foreign_pop'] or obs['errors']) else 'recheck',
+         'memcached': hasattr(sessions, 'MemcachedSession')}
+    if ctx is not None:
+        ctx.extra['ram_clean_up_protocol'] = v['sv']
+        ctx.extra['memcached_backend_covered'] = v['memcached']
+        ctx.note('RamSession.clean_up protocol detected by behaviour: %s' % v['sv'])
+    return v
+
+
 def run(ctx):
     _setup_cherrypy()
-    variant, pcs = RAM.detect_variant()
-    ctx.extra['ram_acquire_protocol'] = variant
-    ctx.note('RamSession.acquire_lock protocol detected by behaviour: %s (%s)' % (variant, ' '.join(pcs)))
+    variants = detect_variants(ctx)
     for e in ctx.known:
         w = e.get('witness')
         if w and e.get('status') in ('known', 'fixed'):
-            run_one(ctx, w, variant)
+            run_one(ctx, w, variants)
     for c in corpus_cases():
-        run_one(ctx, c, variant)
+        run_one(ctx, c, variants)
     import time as _t
     t0 = _t.time()
 
@@ -624,7 +646,7 @@ def run(ctx):
         nonlocal t0
         ctx.note('%s: %.1fs' % (name, _t.time() - t0))
         t0 = _t.time()
-    ram_stream(ctx, variant, ctx.budget(150, 6000), ctx.budget(150, 6000), ctx.budget(1, 2))
+    ramn_stream(ctx, variants, ctx.budget(150, 6000), ctx.budget(150, 6000), ctx.budget(1, 2))
     lap('ram schedules')
     fsched_stream(ctx, ctx.budget(150, 6000), ctx.budget(1, 2))
     lap('file schedules')
@@ -646,8 +668,8 @@ def run(ctx):
 
 def search(ctx, around=None):
     _setup_cherrypy()
-    variant, _ = RAM.detect_variant()
-    ram_stream(ctx, variant, 1500, 1500, 1, compare=False)
+    variants = detect_variants()
+    ramn_stream(ctx, variants, 1500, 1500, 1, compare=False)
     fsched_stream(ctx, 1500, 1, compare=False)
     check_req(ctx, targeted_plans(ctx.rng), compare=False)
     check_req(ctx, [REQ.gen_plan(ctx.rng) for _ in range(3000)], compare=False)
@@ -657,33 +679,36 @@ def search(ctx, around=None):
 
 def replay(ctx, case):
     _setup_cherrypy()
-    variant, pcs = RAM.detect_variant()
-    print('acquire_lock protocol:', variant)
-    if case.get('kind', 'ram') == 'ram':
-        snaps, toks, obs = RAM.run_case(case)
-        m = ctx.model([ram_line(variant, case, toks)])
-        ms = m[0].split('|') if m else []
-        for i, t in enumerate(toks):
-            print('%3d %-3s impl  %s' % (i, t, snaps[i]))
-            if ms and i < len(ms) and ms[i] != snaps[i]:
-                print('        model %s' % ms[i])
-        print('observed:', json.dumps(obs, sort_keys=True))
-    elif case.get('kind') == 'req':
+    variants = detect_variants()
+    print('clean_up protocol:', variants['sv'])
+    kind = case.get('kind', 'ram')
+    if kind in ('ram', 'ramn'):
+        c = from_old_ram(case) if kind == 'ram' else case
+        o0, trace, final, obs = N.run_case(c)
+        rv = 'recheck' if c.get('backend', 'ram') == 'ram' else 'orig'
+        m = ctx.model([N.model_line(c, o0, trace, final, rv, variants['sv'])])
+        print('      start      %s' % N.nats(o0))
+        for i, (t, o, lab) in enumerate(trace):
+            print('%3d %-3s %-5s impl  %s' % (i, t, lab, N.nats(o)))
+        print('final (blocked):', final)
+        print('model:', m[0] if m else None)
+        print('observed:', json.dumps(obs, sort_keys=True, default=str))
+    elif kind == 'req':
         r = REQ.run_plan(case)
         print('impl :', json.dumps(r, sort_keys=True))
         m = ctx.model([REQ.plan_line(case)])
         print('model:', m[0] if m else None)
-    elif case.get('kind') == 'fsched':
-        snaps, toks, obs = FS.run_case(case)
-        m = ctx.model([FS.model_line(case, toks)])
-        ms = m[0].split('|') if m else []
-        for i, t in enumerate(toks):
-            print('%3d %-3s impl  %s' % (i, t, snaps[i]))
-            if ms and i < len(ms) and ms[i] != snaps[i]:
-                print('        model %s' % ms[i])
+    elif kind == 'fsched':
+        o0, trace, final, obs = FS.run_case(case)
+        m = ctx.model([FS.model_line(case, o0, trace, final)])
+        print('      start      %s' % FS.nats(o0))
+        for i, (t, o, lab) in enumerate(trace):
+            print('%3d %-3s %-5s impl  %s' % (i, t, lab, FS.nats(o)))
+        print('final (blocked):', final)
+        print('model:', m[0] if m else None)
         print('observed:', json.dumps(obs, sort_keys=True))
-    elif case.get('kind') == 'wsgi':
+    elif kind == 'wsgi':
         toks, obs = WSGI.run_case(case)
         print('schedule:', ' '.join(toks))
         print('observed:', json.dumps(obs, sort_keys=True))
-    run_one(ctx, case, variant)
+    run_one(ctx, case, variants)
